@@ -93,6 +93,10 @@ def run(p, led, tier):
             cfgargs.update(overrides)
         obj = it.instantiate(tel, [], cfgargs)
         obj.fields["_phase"] = it.enum_member(phase, start)
+        # state invariant (verified inductively below, rule R2): a senescence reason is recorded only in
+        # SENESCENT / APOPTOTIC / TERMINATED; there it may be anything
+        if start in ("SENESCENT", "APOPTOTIC", "TERMINATED") and "_senescence_reason" in obj.fields:
+            obj.fields["_senescence_reason"] = Unknown("_senescence_reason")
         for f in ("_telomere_length", "_error_count", "_operations_count", "_started_at", "_last_activity", "_renewal_count"):
             if f in obj.fields:
                 obj.fields[f] = Unknown(f)
@@ -111,7 +115,8 @@ def run(p, led, tier):
         except PyRaise as e:
             r, raised = None, repr(e.exc)
         writes = [ev for ev in it.events if ev[0] == "write"]
-        return dict(ret=r, raised=raised, writes=writes, final=obj.fields["_phase"].name if hasattr(obj.fields["_phase"], "name") else repr(obj.fields["_phase"]),
+        reason = obj.fields.get("_senescence_reason")
+        return dict(reason_none=reason is None, ret=r, raised=raised, writes=writes, final=obj.fields["_phase"].name if hasattr(obj.fields["_phase"], "name") else repr(obj.fields["_phase"]),
                     changed=freeze(obj) != before, decisions=list(it.decisions))
 
     table = {}
@@ -132,6 +137,10 @@ def run(p, led, tier):
                         edges.add((a, b))
             bad = sorted(e for e in edges if not legal(m.name, *e))
             key = f"Telomere.{m.name} ▸ from {start}"
+            inv_broken = [r for _, r in paths if r["final"] in ("NASCENT", "ACTIVE") and not r["reason_none"] and not r["raised"]]
+            if inv_broken:
+                led.fail("C09-R2", key + " ▸ state invariant", where(m, m.node),
+                         f"{len(inv_broken)} path(s) end in {inv_broken[0]['final']} with a senescence reason still recorded: the start-state invariant used by this analysis is not inductive")
             if bad:
                 led.fail("C09-R2", key, where(m, m.node),
                          f"illegal transition(s) {[f'{a}→{b}' for a, b in bad]} reachable ({len(paths)} paths explored)",
